@@ -258,15 +258,32 @@ pub fn run_check(replay: Option<Value>) -> i32 {
         Some(out)
     });
     // degenerate zero-length run
-    let zd = vec![dim("method", &M6.iter().map(|m| mname(*m)).collect::<Vec<_>>()), dim("x0", &[0.0, 2.5, -1e3])];
+    let zd = vec![dim("method", &M6.iter().map(|m| mname(*m)).collect::<Vec<_>>()), dim("x0", &[0.0, 2.5, -1e3]), dim("dense_output", &[true, false]), dim("problem", &["oscillator (n=2)", "lin3 (n=3)", "decay (n=1)"])];
     lattice(&mut rep, "zero", &zd, only.as_deref(), |key, idx| {
-        let p = base(Base::Harmonic(1.0));
+        let p = [base(Base::Harmonic(1.0)), base(Base::Lin3), base(Base::Decay(-1.0))][idx[3]].clone();
         let x0 = [0.0, 2.5, -1e3][idx[1]];
         let mut c = Cfg::new(M6[idx[0]], x0, x0, &p.y0);
-        c.dense = true;
+        c.dense = idx[2] == 0;
         let r = run(&p, &c);
         let mut out = CaseOut::default();
         let desc = json!({"key": key, "cfg": c.json(&p.name)});
+        if !c.dense {
+            // the degenerate run with dense output disabled: NotEnabled like any other run
+            match &r.out {
+                Outcome::Ok(s) => {
+                    let (e1, e2) = (format!("{:?}", s.sol(x0)), format!("{:?}", s.sol_many(&[x0])));
+                    if !e1.contains("NotEnabled") || !e2.contains("NotEnabled") || s.sol_span().is_some() {
+                        out.violations.push(Violation::new(key, "zero-length-not-enabled", format!("zero-length run with dense_output disabled: sol -> {}, sol_many -> {}, sol_span -> {:?}", &e1[..e1.len().min(60)], &e2[..e2.len().min(60)], s.sol_span()), desc));
+                    } else {
+                        out.tag("zero-length-disabled");
+                        out.validated = 1;
+                    }
+                }
+                _ => out.violations.push(Violation::new(key, "zero-length", format!("zero-length run ended with {}", r.outcome_name()), desc)),
+            }
+            out.events = 1;
+            return Some(out);
+        }
         match &r.out {
             Outcome::Ok(s) => match s.sol(x0) {
                 Ok(v) if v.iter().zip(&p.y0).all(|(a, b)| (a - b).abs() <= 1e-14) => {
@@ -290,7 +307,7 @@ pub fn run_check(replay: Option<Value>) -> i32 {
         return if rep.violations.is_empty() { 0 } else { 1 };
     }
     rep.violations.extend(regress::violations_for("C06"));
-    for t in ["dense-run", "terminal-stop", "dense-disabled", "zero-length", "bdf-order-raise", "bdf-order-drop", "with-rejections", "dense-after-early-end", "dense-with-tiny-step"] {
+    for t in ["dense-run", "terminal-stop", "dense-disabled", "zero-length", "bdf-order-raise", "bdf-order-drop", "with-rejections", "dense-after-early-end", "dense-with-tiny-step", "zero-length-disabled"] {
         rep.require(t, 1);
     }
     rep.rule = "full product of the lattice; low-level runs: every accepted step's interpolant is evaluated at both ends and the midpoint inside the callback; solve_ivp runs: sol at every stored sample, on a 33-point grid over sol_span, 2e-12 left/right of every interior boundary, clearly outside, sol_many vs sol (sorted, reversed and interleaved batches), with and without a terminal event, with dense_output disabled, for runs that end early (max_steps=5, NeedLargerNMax) and for runs whose first accepted step is 2e-13 long; distinct = distinct RHS fingerprints x api".into();
